@@ -43,14 +43,12 @@ def _zstd():
 
 def ref_decode(fam: str, data: bytes):
     """Reference decoder.  Returns bytes, or None when it rejects the body.  Deliberately generous where real
-    recipients are (raw deflate, trailing garbage after a complete gzip stream, an empty body is empty content);
-    strict about the stream being of the right format and complete."""
+    recipients are (raw deflate, trailing garbage after a complete gzip stream); strict about the stream being of the
+    right format and complete -- zero bytes are not a gzip / zlib / brotli / zstd stream."""
     if fam == "id":
         return data
     if fam == "x":
         return None
-    if data == b"":
-        return b""
     try:
         if fam == "gz":
             out = []
@@ -313,7 +311,7 @@ def run_ops(sc):
         raw = msg.raw_content
         cl = msg.headers.get("content-length")
         rd = ref_decode(fam, raw) if raw is not None else None
-        return {"ce": "-" if ce is None else ce, "fam": fam, "raw": intern(raw), "rawlen": len(raw or b""),
+        return {"ce": "-" if ce is None else ce, "fam": fam, "raw": intern(raw), "empty": raw == b"", "rawlen": len(raw or b""),
                 "cl": int(cl) if cl is not None and cl.isdigit() and len(cl) < 10 else -1,
                 "te": "transfer-encoding" in msg.headers, "rd": intern(rd)}
 
@@ -401,7 +399,7 @@ class Check(core.PropertyCheck):
     MON = "Mon_CodecCache"
     REQUIRED_WITNESSES = ("set_coded", "set_unknown_coding", "set_served_from_cache", "readback_set", "readback_mdec",
                           "readback_menc", "msg_decoded", "msg_reencoded", "wire_invalid_data", "transfer_encoding",
-                          "get_raised", "lenient_decode", "encode_served_from_cache", "fenc", "fdec", "double_encode")
+                          "get_raised", "lenient_decode", "get_empty_coded_body", "set_empty_content_coded", "encode_served_from_cache", "fenc", "fdec", "double_encode")
     REQUIRED_ACTIONS = ("Wire", "SetContent", "GetContent", "DecodeMsg", "EncodeMsg", "FuncCall")
     ASSUMPTIONS = (
         "reference decoders are zlib (wbits 31 for gzip incl. multi-member, 15 / -15 for deflate), brotli and zstd called "
@@ -509,6 +507,15 @@ class Check(core.PropertyCheck):
             pred = core.predicted_events(b)
             for pal in (range(N_PALETTES) if n % 8 == 0 else (0,)):
                 yield core.Scenario({"pal": pal, "ops": ops}, predicted=pred, source="model")
+        # the empty body under every coding name (supported, mixed case, mitmproxy extras, unknown, Python codecs)
+        for c in R_CODINGS:
+            stream = E(_FAM_OF[c.lower()], P1) if c.lower() in _FAM_OF else P1
+            for ops in ([["wire", 1, c, stream, False], ["set", 1, P0], ["get", 1, True], ["mdec", 1, True], ["get", 1, True]],
+                        [["wire", 1, "-", P1, False], ["menc", 1, c], ["set", 1, P0], ["get", 1, True], ["set", 1, P2], ["get", 1, True]],
+                        [["wire", 1, c, P0, False], ["get", 1, True], ["set", 1, P0], ["get", 1, False], ["menc", 1, c]],
+                        [["wire", 1, "-", P0, False], ["menc", 1, c], ["get", 1, True], ["mdec", 1, True]],
+                        [["fenc", c, P0], ["fdec", c, P0], ["wire", 1, c, stream, True], ["set", 1, P0]]):
+                yield core.Scenario({"pal": 0, "ops": ops}, source="suite")
         rng = random.Random(ctx.seed * 7919 + 31)
         for _ in range(400 if ctx.quick else 6000):
             yield core.Scenario(random_scenario(rng), source="random")
